@@ -21,8 +21,8 @@ def run(tier):
         h = build_harness(s)
         from concurrent.futures import ThreadPoolExecutor
         with ThreadPoolExecutor(2) as ex:
-            fut = ex.submit(wire.emit_vectors, s, "quick")
-            res = require_ok(run_tlc(s, "CqlValue", marker='"CQL"', workers=1, timeout=1200, copy=False), "CqlValue")
+            fut = ex.submit(wire.emit_vectors, s, tier)
+            res = require_ok(run_tlc(s, "CqlValue", marker='"CQL"', workers=1, timeout=3600, copy=False, env=dict(VERIF_DEEP="1" if tier == "thorough" else "0")), "CqlValue")
             vec, nvec = fut.result()
         cases = marker_json(res.lines, '"CQL"')
         with open(s.file("cases.ndjson"), "w") as f:
